@@ -5,22 +5,11 @@ Open Scope Z_scope.
 
 Definition case := MK.Case.case.
 
-(* model vs implementation: every swap of the history is replayed by the model from the
-   implementation's pre-state; result, report and the complete post-state must agree.
-   Deposits / withdrawals / direct field writes are state transitions taken from the
-   implementation here (they are modelled and compared in C06). *)
-Fixpoint corr_ops (w unit : Z) (cfg : config) (s : mstate) (ops : list op) : bool :=
-  match ops with
-  | [] => true
-  | o :: rest =>
-      (match o with
-       | OSwap il a ps r _ => res_match sr_eqb s (swap_exec w unit cfg s il a ps) r (op_post s o)
-       | _ => true
-       end) && corr_ops w unit cfg (op_post s o) rest
-  end.
-
+(* model vs implementation: every action of the history (swap, deposit, withdrawal) is replayed
+   by the model from the implementation's pre-state; result, report and the complete
+   post-state must agree.  Direct field writes (OSet) are taken from the implementation. *)
 Definition corr_b (c : case) : bool :=
-  match c with Hist w dec cfg init ops => corr_ops w (10 ^ dec) cfg init ops end.
+  match c with Hist w dec cfg init ops => corr_ops_all w (10 ^ dec) cfg init ops end.
 
 (* The property on the implementation's own states (independent of the model):
    successful swap: holdings(in) grow by exactly the input amount, holdings(out) shrink by
